@@ -359,16 +359,79 @@ Proof. intros H. apply fold_max_ge_nat. left. apply in_map. exact H. Qed.
 Lemma str_gtb_spec : forall x y : list N, str_ok x -> str_ok y -> lex_gtb x y = negb (lex_leb x y).
 Proof. reflexivity. Qed.
 
+Lemma all_share_common depth data :
+  all_share depth data = true -> common (list N) (fun s => s) depth data ->
+  common (list N) (fun s => s) (S depth) data.
+Proof.
+  intros Hs Hc. unfold all_share in Hs. destruct data as [|first rest]; [discriminate|].
+  destruct (nth_error first depth) as [b|] eqn:Eb; [|discriminate].
+  rewrite forallb_forall in Hs.
+  assert (Hall : forall s, In s (first :: rest) -> nth_error s depth = Some b).
+  { intros s Hin. specialize (Hs s Hin). destruct (nth_error s depth) as [c|]; [|discriminate].
+    apply N.eqb_eq in Hs. subst c. reflexivity. }
+  intros x y Hx Hy. destruct (Hc x y Hx Hy) as [Hf _]. split.
+  - apply (firstn_S_nth x y depth b); [exact Hf|apply Hall; exact Hx|apply Hall; exact Hy].
+  - assert (H : nth_error x depth <> None) by (rewrite (Hall x Hx); discriminate).
+    apply nth_error_Some in H. lia.
+Qed.
+
+Lemma skip_common_spec data fuel : forall depth,
+  common (list N) (fun s => s) depth data ->
+  common (list N) (fun s => s) (skip_common fuel depth data) data /\ (depth <= skip_common fuel depth data)%nat.
+Proof.
+  induction fuel as [|f IH]; intros depth Hc; cbn [skip_common]; [split; [exact Hc|lia]|].
+  destruct (all_share depth data) eqn:E; [|split; [exact Hc|lia]].
+  destruct (IH (S depth) (all_share_common depth data E Hc)) as [H1 H2]. split; [exact H1|lia].
+Qed.
+
 Lemma bytes_msd_go_sorts fuel : forall depth data,
   (forall x, In x data -> (length x < fuel + depth)%nat) ->
   Forall str_ok data -> common (list N) (fun s => s) depth data ->
   StronglySorted lex_le (bytes_msd_go fuel depth data) /\ Permutation data (bytes_msd_go fuel depth data).
 Proof.
-  induction fuel as [|f IH]; intros depth data Hlen Hok Hc.
+  induction fuel as [|f IH]; intros depth data Hlen Hok Hc0.
   - cbn [bytes_msd_go]. split; [|reflexivity]. destruct data as [|x data]; [constructor|].
-    exfalso. destruct (Hc x x) as [_ Hl]; try (left; reflexivity).
+    exfalso. destruct (Hc0 x x) as [_ Hl]; try (left; reflexivity).
     specialize (Hlen x (or_introl eq_refl)). cbn [Nat.add] in Hlen. lia.
   - cbn [bytes_msd_go].
+    destruct (Nat.leb_spec (length data) 1) as [H1|H1].
+    { split; [|reflexivity]. destruct data as [|x [|y l]]; cbn [length] in H1; try lia; repeat constructor. }
+    destruct (skip_common_spec data (first_len data) depth Hc0) as [Hc Hd].
+    set (d := skip_common (first_len data) depth data) in *.
+    apply (level_sorts (list N) (fun s => s) lex_gtb str_ok (fun x Hx => Hx) str_gtb_spec _ d); [exact Hok|exact Hc|].
+    intros i. cbn zeta.
+    destruct (Nat.ltb_spec 1 (length (msd_bucket (list N) (fun s => s) d i data))) as [Hl|Hl]; cbn [andb].
+    + destruct i as [|b]; cbn [Nat.ltb Nat.leb].
+      * split; [apply (bucket0_sorted (list N) (fun s => s)); exact Hc|reflexivity].
+      * apply IH.
+        -- intros x Hx. apply in_bucket in Hx as [Hx _]. specialize (Hlen x Hx). lia.
+        -- apply (bucket_ok (list N) (fun s => s) str_ok). exact Hok.
+        -- apply (common_bucket (list N) (fun s => s) lex_gtb str_ok (fun x Hx => Hx) str_gtb_spec). exact Hc.
+    + split; [|reflexivity].
+      destruct (msd_bucket (list N) (fun s => s) d i data) as [|x [|y l]]; cbn [length] in Hl; try lia;
+        repeat constructor.
+Qed.
+
+Lemma sort_bytes_sorts data :
+  Forall str_ok data ->
+  StronglySorted lex_le (sort_bytes data) /\ Permutation data (sort_bytes data).
+Proof.
+  intros Hok. unfold sort_bytes. apply bytes_msd_go_sorts; [|exact Hok|].
+  - intros x Hx. apply max_len_ge in Hx. lia.
+  - intros x y _ _. split; [reflexivity|lia].
+Qed.
+
+(* the function before the fix computes the same thing ... *)
+Lemma bytes_msd_go_unfixed_sorts fuel : forall depth data,
+  (forall x, In x data -> (length x < fuel + depth)%nat) ->
+  Forall str_ok data -> common (list N) (fun s => s) depth data ->
+  StronglySorted lex_le (bytes_msd_go_unfixed fuel depth data) /\ Permutation data (bytes_msd_go_unfixed fuel depth data).
+Proof.
+  induction fuel as [|f IH]; intros depth data Hlen Hok Hc.
+  - cbn [bytes_msd_go_unfixed]. split; [|reflexivity]. destruct data as [|x data]; [constructor|].
+    exfalso. destruct (Hc x x) as [_ Hl]; try (left; reflexivity).
+    specialize (Hlen x (or_introl eq_refl)). cbn [Nat.add] in Hlen. lia.
+  - cbn [bytes_msd_go_unfixed].
     destruct (Nat.leb_spec (length data) 1) as [H1|H1].
     { split; [|reflexivity]. destruct data as [|x [|y l]]; cbn [length] in H1; try lia; repeat constructor. }
     apply (level_sorts (list N) (fun s => s) lex_gtb str_ok (fun x Hx => Hx) str_gtb_spec _ depth); [exact Hok|exact Hc|].
@@ -385,13 +448,15 @@ Proof.
         repeat constructor.
 Qed.
 
-Lemma sort_bytes_sorts data :
-  Forall str_ok data ->
-  StronglySorted lex_le (sort_bytes data) /\ Permutation data (sort_bytes data).
+Lemma sort_bytes_unfixed_eq data : Forall str_ok data -> sort_bytes_unfixed data = sort_bytes data.
 Proof.
-  intros Hok. unfold sort_bytes. apply bytes_msd_go_sorts; [|exact Hok|].
+  intros Hok. destruct (sort_bytes_sorts data Hok) as [A1 A2].
+  destruct (bytes_msd_go_unfixed_sorts (S (max_len data)) 0 data) as [B1 B2].
   - intros x Hx. apply max_len_ge in Hx. lia.
+  - exact Hok.
   - intros x y _ _. split; [reflexivity|lia].
+  - apply lex_sorted_perm_unique; [exact B1|exact A1|].
+    eapply perm_trans; [apply Permutation_sym; exact B2|exact A2].
 Qed.
 
 (* ---------- u32 / u64 ---------- *)
